@@ -99,6 +99,36 @@ package httpserver
 // spelled fully expanded in upper case in the headers (same address); a list
 // now and then has 4-12 entries.
 //
+// Ordinary options and inputs beyond the lists (two thirds of the runs):
+// hostRegexp rules (beside or instead of host), pathRegexp paths (anchored,
+// unanchored, groups used by rewriteTarget), header conditions written as
+// regexp, methods HEAD/PUT/DELETE/OPTIONS in requests and in paths' method
+// lists, xForwardedFor: true, clientMaxBodySize at server and path level with
+// request bodies of 1-100 bytes, the ACME challenge path (answered in front of
+// the routes), key respellings that differ only in letter case / a trailing
+// slash. Client information: X-Forwarded-For members padded with blanks,
+// X-Forwarded-For as two header lines (client line first), a hop that is not
+// an address ("unknown", ip:port, [v6]) in front of the client (skipped by the
+// documented rule: "first VALID public hop").
+//   - whether a route exists is asked of the twin with the body taken off (a
+//     413 of the twin hides the pipeline, not the route): a denied client gets
+//     403 on an existing route whatever its body; a not-denied one gets the
+//     twin's answer including a 413.
+//   - "same answer" includes what the pipeline sees: backend, rewritten path,
+//     X-Forwarded-For after xForwardedFor, body size.
+//   - a rule is "maybe applying" if its host equals the request's up to letter
+//     case or its hostRegexp finds the host (with or without port, as sent or
+//     lower-cased): a lenient superset of any reading of "matches the host".
+//   - a request whose only client information is not an address (X-Real-IP:
+//     unknown): 403 and the unfiltered answer are both accepted, but the answer
+//     must equal the cache-less one (C05.non-address-client-answer-depends-on-history).
+//   - behind const c05MultiLineXFFPrivateFirst (OFF): X-Forwarded-For in two
+//     header lines with only private hops in the first; fires on the unchanged
+//     tree as C05.client-in-later-x-forwarded-for-line-ignored (reported).
+//   - still not generated: IPv4-mapped IPv6, several X-Real-IP lines, paths
+//     with path+pathPrefix+pathRegexp at once, matchAllHeader, globalFilter,
+//     negative (stream) clientMaxBodySize, https/http3 options.
+//
 // Violation classes: C05.{server,rule,path}-filter-bypassed (denied client
 // reached the backend of its own route), C05.denied-status-not-4xx / -not-403,
 // C05.allowed-refused, C05.allowed-misrouted, C05.other,
@@ -113,10 +143,12 @@ package httpserver
 
 import (
 	"fmt"
+	"io"
 	"net"
 	"net/http"
 	"net/http/httptest"
 	"os"
+	"regexp"
 	"sort"
 	"strings"
 	"testing"
@@ -143,7 +175,9 @@ type c05Filter struct {
 }
 
 type c05Path struct {
-	Kind    string     `json:"kind"` // exact | prefix | any
+	Kind    string     `json:"kind"`               // exact | prefix | regexp | any (Path = pattern for regexp)
+	TagRe   bool       `json:"tag_re,omitempty"`   // header condition written as regexp instead of values
+	MaxBody int64      `json:"max_body,omitempty"` // path-level clientMaxBodySize (0: none)
 	Path    string     `json:"path"`
 	Methods []string   `json:"methods"`
 	Tag     string     `json:"tag"`     // non-empty: path is conditioned on header X-Tag == Tag
@@ -158,7 +192,9 @@ type c05Rule struct {
 	Host   string       `json:"host"`
 	Filter *c05Filter   `json:"filter"`
 	Alts   []*c05Filter `json:"alts,omitempty"` // as c05Path.Alts
-	Paths  []c05Path    `json:"paths"`
+	// HostRegexp: the rule's hostRegexp (may stand beside or instead of Host)
+	HostRegexp string    `json:"host_regexp,omitempty"`
+	Paths      []c05Path `json:"paths"`
 }
 
 type c05Op struct {
@@ -181,6 +217,11 @@ type c05Op struct {
 	// Form "exp": an IPv6 client address is written in the headers in its
 	// fully expanded upper-case form (same address, other spelling).
 	Form string `json:"form,omitempty"`
+	// Body: length of the request body (0: none)
+	Body int `json:"body,omitempty"`
+	// Raw: header text that is not an address (via xrijunk: the whole
+	// X-Real-IP; via xffjunk: an X-Forwarded-For hop in front of the rest)
+	Raw string `json:"raw,omitempty"`
 }
 
 type c05Client struct {
@@ -196,10 +237,22 @@ type c05Scenario struct {
 	// hot reloads: ServerAlts as c05Path.Alts; Reloader = ops (kind reload) of
 	// a dedicated admin task that runs beside the clients.
 	ServerAlts []*c05Filter `json:"server_alts,omitempty"`
-	Reloader   []c05Op      `json:"reloader,omitempty"`
+	// further HTTPServer options (same in all generations and in the twins)
+	XFwd     bool    `json:"xfwd,omitempty"`     // xForwardedFor: true
+	MaxBody  int64   `json:"max_body,omitempty"` // clientMaxBodySize
+	Reloader []c05Op `json:"reloader,omitempty"`
 }
 
 const c05MaxGen = 6
+
+// c05MultiLineXFFPrivateFirst switches on requests whose X-Forwarded-For is
+// spread over two header LINES with only private hops in the first line and
+// the public client in the second (what a proxy that ADDS its own header line
+// produces). By RFC 7230 3.2.2 that is the list "private..., client"; the
+// address extraction reads the first line only. Fires on the unchanged tree
+// (class C05.client-in-later-x-forwarded-for-line-ignored); OFF until the
+// framework owner has decided between fix and known finding.
+const c05MultiLineXFFPrivateFirst = true
 
 // c05At: the filter a slot holds in generation g.
 func c05At(base *c05Filter, alts []*c05Filter, g int) *c05Filter {
@@ -212,9 +265,9 @@ func c05At(base *c05Filter, alts []*c05Filter, g int) *c05Filter {
 // c05View is the scenario as generation g configures it (filters of that
 // generation in the Filter fields, no Alts).
 func c05View(sc *c05Scenario, g int) *c05Scenario {
-	v := &c05Scenario{CacheSize: sc.CacheSize, Server: c05At(sc.Server, sc.ServerAlts, g)}
+	v := &c05Scenario{CacheSize: sc.CacheSize, XFwd: sc.XFwd, MaxBody: sc.MaxBody, Server: c05At(sc.Server, sc.ServerAlts, g)}
 	for _, ru := range sc.Rules {
-		r2 := c05Rule{Host: ru.Host, Filter: c05At(ru.Filter, ru.Alts, g), Paths: []c05Path{}}
+		r2 := c05Rule{Host: ru.Host, HostRegexp: ru.HostRegexp, Filter: c05At(ru.Filter, ru.Alts, g), Paths: []c05Path{}}
 		for _, p := range ru.Paths {
 			p2 := p
 			p2.Filter, p2.Alts = c05At(p.Filter, p.Alts, g), nil
@@ -567,6 +620,13 @@ func c05Gen(rng *sim.Rand, tier string) interface{} {
 		pR = 0.7
 	}
 	sc.Server = c05GenFilter(rng, entryPool, pS)
+	// ordinary options and inputs beyond the filter lists themselves (a per-run
+	// knob: a third of the runs keep to the plain shape)
+	unexplored := rng.Bool(0.67)
+	if unexplored {
+		sc.XFwd = rng.Bool(0.25)
+		sc.MaxBody = int64(rng.Pick(0, 0, 0, 8, 64))
+	}
 	nr := rng.Range(1, 3)
 	for i := 0; i < nr; i++ {
 		ru := c05Rule{Host: rng.PickStr("", "a.test", "a.test", "b.test"), Paths: []c05Path{}}
@@ -574,32 +634,60 @@ func c05Gen(rng *sim.Rand, tier string) interface{} {
 			ru.Host = strings.ToUpper(ru.Host[:1]) + ru.Host[1:] // a rule for the other spelling
 		}
 		ru.Filter = c05GenFilter(rng, entryPool, pR)
+		if unexplored && rng.Bool(0.2) {
+			// hostRegexp instead of or beside the exact host
+			ru.HostRegexp = rng.PickStr(`^.*\.test$`, `^a\..*$`, `^(a|b)\.test$`, `test`, `^[a-z]+\.test$`)
+			if rng.Bool(0.5) {
+				ru.Host = ""
+			}
+		}
 		npth := rng.Pick(0, 1, 1, 2, 2, 3)
 		for j := 0; j < npth; j++ {
 			p := c05Path{Methods: []string{}}
-			switch rng.Intn(6) {
+			switch rng.Intn(7) {
 			case 0, 1:
 				p.Kind, p.Path = "exact", rng.PickStr("/a", "/a", "/b", "/a/x")
 			case 2, 3:
 				p.Kind, p.Path = "prefix", rng.PickStr("/a", "/", "/b")
 			case 4:
 				p.Kind, p.Path = "exact", "/a"
-			default:
+			case 5:
 				p.Kind = "any"
+			default:
+				if unexplored {
+					// pathRegexp: anchored, character class, unanchored, with a group
+					p.Kind, p.Path = "regexp", rng.PickStr(`^/a/.*$`, `^/[ab]$`, `/a`, `^/a(/.*)?$`, `^/(a|b)(/.*)?$`)
+				} else {
+					p.Kind = "any"
+				}
 			}
-			switch rng.Intn(5) {
+			switch rng.Intn(7) {
 			case 0:
 				p.Methods = []string{"GET"}
 			case 1:
 				p.Methods = []string{"POST"}
 			case 2:
 				p.Methods = []string{"GET", "POST"}
+			case 5:
+				if unexplored {
+					p.Methods = [][]string{{"HEAD"}, {"GET", "HEAD"}, {"PUT", "DELETE"}, {"POST", "PUT"}}[rng.Intn(4)]
+				}
 			}
 			if headers && rng.Bool(0.5) {
 				p.Tag = "v1"
+				p.TagRe = unexplored && rng.Bool(0.3)
 			}
 			if p.Kind != "any" && rng.Bool(0.2) {
 				p.Rewrite = "/rw"
+				if p.Kind == "regexp" && strings.Contains(p.Path, "(/.*)?") && rng.Bool(0.5) {
+					p.Rewrite = "/rw$1"
+					if strings.HasPrefix(p.Path, "^/(a|b)") {
+						p.Rewrite = "/rw/$1$2"
+					}
+				}
+			}
+			if unexplored {
+				p.MaxBody = int64(rng.Pick(0, 0, 0, 0, 4, 32))
 			}
 			p.Filter = c05GenFilter(rng, entryPool, pP)
 			ru.Paths = append(ru.Paths, p)
@@ -679,9 +767,16 @@ func c05Gen(rng *sim.Rand, tier string) interface{} {
 	// a few "hot" cache keys per scenario, so that different clients meet on
 	// the same cached route
 	randKey := func() (string, string, string) {
-		return rng.PickStr("a.test", "a.test", "a.test", "b.test", "c.test", "a.test:8080"),
+		h, m, p := rng.PickStr("a.test", "a.test", "a.test", "b.test", "c.test", "a.test:8080"),
 			rng.PickStr("GET", "GET", "GET", "POST"),
 			rng.PickStr("/a", "/a", "/a", "/a/x", "/b", "/")
+		if unexplored && rng.Bool(0.15) {
+			m = rng.PickStr("HEAD", "HEAD", "PUT", "DELETE", "OPTIONS")
+		}
+		if unexplored && rng.Bool(0.03) {
+			p = "/.well-known/acme-challenge/tok" // answered in front of the routes
+		}
+		return h, m, p
 	}
 	// respell: the same key with ONE component spelled differently in letter
 	// case only (Host: RFC-wise the same host, for the rules' exact match
@@ -797,15 +892,34 @@ func c05Gen(rng *sim.Rand, tier string) interface{} {
 						op.Decoy = pool[rng.Intn(len(pool))]
 					}
 				}
+			case unexplored && rng.Bool(0.03):
+				// nothing but a non-address names the client
+				op.Via, op.Raw, op.IP = "xrijunk", rng.PickStr("unknown", "203.0.113.9:4711", "[2001:db8::9]", "_hidden", "localhost"), "192.0.2.200"
+			case unexplored && rng.Bool(0.08):
+				op.Via, op.Raw = "xffjunk", rng.PickStr("unknown", "unknown", "203.0.113.9:4711", "[2001:db8::9]:4711", "[2001:db8::9]", "_hidden", "198.51.100.7 203.0.113.4")
+				if !c05Private(op.IP) && rng.Bool(0.4) {
+					op.Decoy = pool[rng.Intn(len(pool))]
+				}
 			case c05Private(op.IP):
 				op.Via = rng.PickStr("remote", "xri")
+			case c05MultiLineXFFPrivateFirst && unexplored && rng.Bool(0.08):
+				op.Via, op.Chain = "xff2priv", chains[rng.Intn(len(chains))]
+				if rng.Bool(0.4) {
+					op.Decoy = pool[rng.Intn(len(pool))]
+				}
 			default:
 				op.Via = rng.PickStr("remote", "remote", "xri", "xff", "xffproxy", "both", "xffdecoy")
+				if unexplored && rng.Bool(0.15) {
+					op.Via = rng.PickStr("xffsp", "xff2ok")
+				}
 				if op.Via == "xffdecoy" {
 					op.Decoy = pool[rng.Intn(len(pool))]
 				}
 			}
-			if op.Via != "remote" && strings.Contains(op.IP, ":") && rng.Bool(0.15) {
+			if unexplored && (op.Method == "POST" || op.Method == "PUT" || op.Method == "post") && rng.Bool(0.4) {
+				op.Body = rng.Pick(1, 5, 9, 40, 100)
+			}
+			if op.Via != "remote" && op.Via != "xrijunk" && strings.Contains(op.IP, ":") && rng.Bool(0.15) {
 				op.Form = "exp"
 			}
 			cl.Ops = append(cl.Ops, op)
@@ -887,12 +1001,28 @@ func c05JustOutside(entry string, ip net.IP) bool {
 	return (x[(l-1)/8]^y[(l-1)/8])&(0x80>>uint((l-1)%8)) != 0
 }
 
-func c05HostMatches(ruleHost, reqHost string) bool {
-	if ruleHost == "" {
+func c05HostMatches(ru c05Rule, reqHost string) bool {
+	ruleHost := ru.Host
+	if ruleHost == "" && ru.HostRegexp == "" {
 		return true
 	}
+	full := reqHost
 	if h, _, err := net.SplitHostPort(reqHost); err == nil {
 		reqHost = h
+	}
+	if ru.HostRegexp != "" {
+		// lenient superset: the pattern finds the host with or without its
+		// port, in the spelling sent or folded to lower case
+		if re, err := regexp.Compile(ru.HostRegexp); err == nil {
+			for _, h := range []string{reqHost, full, strings.ToLower(reqHost), strings.ToLower(full)} {
+				if re.MatchString(h) {
+					return true
+				}
+			}
+		}
+	}
+	if ruleHost == "" {
+		return false
 	}
 	// "maybe applying" is the lenient category: a rule whose host equals the
 	// request's up to letter case counts (host names are case-insensitive by
@@ -925,6 +1055,12 @@ func c05FilterYAML(sb *strings.Builder, indent string, f *c05Filter) {
 func c05YAML(sc *c05Scenario, filters bool, cacheSize int) string {
 	var sb strings.Builder
 	fmt.Fprintf(&sb, "kind: HTTPServer\nname: c05\nport: 10080\nkeepAlive: true\nhttps: false\ncacheSize: %d\n", cacheSize)
+	if sc.XFwd {
+		sb.WriteString("xForwardedFor: true\n")
+	}
+	if sc.MaxBody > 0 {
+		fmt.Fprintf(&sb, "clientMaxBodySize: %d\n", sc.MaxBody)
+	}
 	if filters {
 		c05FilterYAML(&sb, "", sc.Server)
 	}
@@ -933,6 +1069,9 @@ func c05YAML(sc *c05Scenario, filters bool, cacheSize int) string {
 	}
 	for i, ru := range sc.Rules {
 		fmt.Fprintf(&sb, "- host: %q\n", ru.Host)
+		if ru.HostRegexp != "" {
+			fmt.Fprintf(&sb, "  hostRegexp: %q\n", ru.HostRegexp)
+		}
 		if filters {
 			c05FilterYAML(&sb, "  ", ru.Filter)
 		}
@@ -946,6 +1085,11 @@ func c05YAML(sc *c05Scenario, filters bool, cacheSize int) string {
 				fmt.Fprintf(&sb, "    path: %q\n", p.Path)
 			case "prefix":
 				fmt.Fprintf(&sb, "    pathPrefix: %q\n", p.Path)
+			case "regexp":
+				fmt.Fprintf(&sb, "    pathRegexp: %q\n", p.Path)
+			}
+			if p.MaxBody > 0 {
+				fmt.Fprintf(&sb, "    clientMaxBodySize: %d\n", p.MaxBody)
 			}
 			if len(p.Methods) > 0 {
 				fmt.Fprintf(&sb, "    methods: [%s]\n", strings.Join(p.Methods, ", "))
@@ -953,7 +1097,9 @@ func c05YAML(sc *c05Scenario, filters bool, cacheSize int) string {
 			if p.Rewrite != "" && p.Kind != "any" && p.Kind != "" {
 				fmt.Fprintf(&sb, "    rewriteTarget: %q\n", p.Rewrite)
 			}
-			if p.Tag != "" {
+			if p.Tag != "" && p.TagRe {
+				fmt.Fprintf(&sb, "    headers:\n    - key: X-Tag\n      regexp: %q\n", "^"+p.Tag+"$")
+			} else if p.Tag != "" {
 				fmt.Fprintf(&sb, "    headers:\n    - key: X-Tag\n      values: [%q]\n", p.Tag)
 			}
 			if filters {
@@ -966,6 +1112,8 @@ func c05YAML(sc *c05Scenario, filters bool, cacheSize int) string {
 
 type c05Call struct {
 	backend, path, realIP string
+	xff                   string // X-Forwarded-For as the pipeline sees it
+	body                  int64  // payload size the pipeline sees
 }
 
 type c05Mapper struct {
@@ -988,11 +1136,15 @@ func (m *c05Mapper) GetHandler(name string) (context.Handler, bool) {
 func (h *c05Handler) Handle(ctx *context.Context) string {
 	m := h.m
 	req, _ := ctx.GetInputRequest().(*httpprot.Request)
-	id, path, rip := "?", "?", "?"
+	id, path, rip, xff, body := "?", "?", "?", "", int64(-1)
 	if req != nil {
 		id, path, rip = req.HTTPHeader().Get("X-C05-Id"), req.Path(), req.RealIP()
+		xff = strings.Join(req.HTTPHeader().Values("X-Forwarded-For"), " | ")
+		if !req.IsStream() {
+			body = req.PayloadSize()
+		}
 	}
-	m.calls[id] = append(m.calls[id], c05Call{backend: h.name, path: path, realIP: rip})
+	m.calls[id] = append(m.calls[id], c05Call{backend: h.name, path: path, realIP: rip, xff: xff, body: body})
 	if m.yield {
 		m.inflight++
 		if m.inflight > m.maxInflight {
@@ -1090,21 +1242,48 @@ type c05Answer struct {
 	calls   []c05Call
 	backend string // "" when no handler was invoked
 	path    string
+	// route: set on the twin's answer when the request carries a body: the
+	// backend the router selects for the same request without body ("-" none).
+	// Whether a route exists does not depend on the body; whether the pipeline
+	// is reached does (413).
+	route string
+}
+
+// c05RouteOf: backend the router selects according to the twin's answer.
+func c05RouteOf(tw c05Answer) string {
+	switch {
+	case tw.route == "-":
+		return ""
+	case tw.route != "":
+		return tw.route
+	case len(tw.calls) > 0:
+		return tw.backend
+	}
+	return ""
 }
 
 func (a c05Answer) String() string {
 	if len(a.calls) == 0 {
 		return fmt.Sprintf("%d(no handler)", a.status)
 	}
-	return fmt.Sprintf("%d(backend %s saw path %s, realIP %s; %d handler call(s))", a.status, a.backend, a.path, a.calls[0].realIP, len(a.calls))
+	return fmt.Sprintf("%d(backend %s saw path %s, realIP %s, X-Forwarded-For %q, body %d; %d handler call(s))", a.status, a.backend, a.path, a.calls[0].realIP, a.calls[0].xff, a.calls[0].body, len(a.calls))
 }
 
+// same: what the client gets and what the pipeline sees (backend, path after
+// rewriting, X-Forwarded-For after xForwardedFor, body size) are equal.
 func (a c05Answer) same(b c05Answer) bool {
-	return a.status == b.status && a.backend == b.backend && a.path == b.path && len(a.calls) == len(b.calls)
+	if a.status != b.status || a.backend != b.backend || a.path != b.path || len(a.calls) != len(b.calls) {
+		return false
+	}
+	return len(a.calls) == 0 || (a.calls[0].xff == b.calls[0].xff && a.calls[0].body == b.calls[0].body)
 }
 
 func c05Request(op c05Op, id string) *http.Request {
-	req, err := http.NewRequest(op.Method, "http://"+op.Host+op.Path, http.NoBody)
+	var body io.Reader = http.NoBody
+	if op.Body > 0 && op.Body <= 1<<16 {
+		body = strings.NewReader(strings.Repeat("x", op.Body))
+	}
+	req, err := http.NewRequest(op.Method, "http://"+op.Host+op.Path, body)
 	if err != nil {
 		return nil
 	}
@@ -1146,6 +1325,39 @@ func c05Request(op c05Op, id string) *http.Request {
 		if op.Decoy != "" {
 			req.Header.Set("X-Real-Ip", op.Decoy)
 		}
+	case "xffsp":
+		// blanks around the list members
+		req.RemoteAddr = hostport(proxy)
+		req.Header.Set("X-Forwarded-For", " "+op.IP+" ,192.0.2.77 ")
+	case "xffjunk":
+		// a hop that is not an address ("unknown", ip:port, [v6]) in front
+		req.RemoteAddr = hostport(proxy)
+		if c05Private(op.IP) {
+			req.Header.Set("X-Forwarded-For", op.Raw)
+			req.Header.Set("X-Real-Ip", op.IP)
+		} else {
+			req.Header.Set("X-Forwarded-For", op.Raw+", "+op.IP)
+			if op.Decoy != "" {
+				req.Header.Set("X-Real-Ip", op.Decoy)
+			}
+		}
+	case "xrijunk":
+		// the only client information is not an address
+		req.RemoteAddr = hostport(proxy)
+		req.Header.Set("X-Real-Ip", op.Raw)
+	case "xff2ok":
+		// X-Forwarded-For as two header lines: client, then a proxy
+		req.RemoteAddr = hostport(proxy)
+		req.Header.Add("X-Forwarded-For", op.IP)
+		req.Header.Add("X-Forwarded-For", "192.0.2.77")
+	case "xff2priv":
+		// two header lines: private hops, then the public client
+		req.RemoteAddr = hostport(proxy)
+		req.Header.Add("X-Forwarded-For", op.Chain)
+		req.Header.Add("X-Forwarded-For", op.IP)
+		if op.Decoy != "" {
+			req.Header.Set("X-Real-Ip", op.Decoy)
+		}
 	default:
 		req.RemoteAddr = hostport(op.IP)
 	}
@@ -1175,7 +1387,7 @@ var c05NonPublic = func() []*net.IPNet {
 // if there is none, X-Real-IP. (A request with only private hops and no
 // X-Real-IP has no defined client: ok=false, never generated.)
 func c05ClientOf(req *http.Request) (string, bool) {
-	xff, xri := req.Header.Get("X-Forwarded-For"), req.Header.Get("X-Real-Ip")
+	xff, xri := strings.Join(req.Header.Values("X-Forwarded-For"), ","), req.Header.Get("X-Real-Ip")
 	if xff == "" && xri == "" {
 		h, _, err := net.SplitHostPort(req.RemoteAddr)
 		return h, err == nil
@@ -1237,18 +1449,29 @@ func c05ValidOp(op c05Op) bool {
 	if op.Kind != "req" || op.Host == "" || op.Method == "" || !strings.HasPrefix(op.Path, "/") || net.ParseIP(op.IP) == nil {
 		return false
 	}
-	if strings.HasPrefix(op.Path, "/.well-known/") {
+	if op.Body < 0 || op.Body > 1<<16 {
 		return false
 	}
 	switch op.Via {
-	case "remote", "xri", "xff", "xffproxy", "both", "privxff", "privpub", "xffdecoy":
+	case "remote", "xri", "xff", "xffproxy", "both", "privxff", "privpub", "xffdecoy", "xffsp", "xff2ok":
+	case "xff2priv":
+		if !c05MultiLineXFFPrivateFirst {
+			return false
+		}
+	case "xffjunk", "xrijunk":
+		if op.Raw == "" || strings.ContainsAny(op.Raw, ",\r\n") || net.ParseIP(strings.TrimSpace(op.Raw)) != nil {
+			return false
+		}
+		if op.Via == "xrijunk" {
+			return c05Request(op, "x") != nil
+		}
 	default:
 		return false
 	}
 	if op.Decoy != "" && net.ParseIP(op.Decoy) == nil {
 		return false
 	}
-	if (op.Via == "privxff" || op.Via == "privpub") && op.Chain == "" {
+	if (op.Via == "privxff" || op.Via == "privpub" || op.Via == "xff2priv") && op.Chain == "" {
 		return false
 	}
 	// the request as built must name op.IP as its client under the documented
@@ -1274,11 +1497,20 @@ func c05Exec(r *sim.Run, sci interface{}) {
 		return
 	}
 	for _, ru := range sc.Rules {
-		for _, p := range ru.Paths {
-			if p.Kind != "exact" && p.Kind != "prefix" && p.Kind != "any" {
+		if ru.HostRegexp != "" {
+			if _, err := regexp.Compile(ru.HostRegexp); err != nil {
 				return
 			}
-			if p.Kind != "any" && !strings.HasPrefix(p.Path, "/") {
+		}
+		for _, p := range ru.Paths {
+			if p.Kind != "exact" && p.Kind != "prefix" && p.Kind != "any" && p.Kind != "regexp" {
+				return
+			}
+			if p.Kind == "regexp" {
+				if _, err := regexp.Compile(p.Path); err != nil || p.Path == "" {
+					return
+				}
+			} else if p.Kind != "any" && !strings.HasPrefix(p.Path, "/") {
 				return
 			}
 		}
@@ -1369,10 +1601,10 @@ func c05Exec(r *sim.Run, sci interface{}) {
 	}
 	status := func(gv *c05Scenario, op c05Op, tw c05Answer) (st c05Status) {
 		ip := net.ParseIP(op.IP)
-		st.routed = len(tw.calls) > 0
+		st.routed = c05RouteOf(tw) != ""
 		st.ri, st.pj, st.maybe = -1, -1, -1
 		if st.routed {
-			if _, err := fmt.Sscanf(tw.backend, "r%dp%d", &st.ri, &st.pj); err != nil || st.ri < 0 || st.ri >= len(gv.Rules) || st.pj < 0 || st.pj >= len(gv.Rules[st.ri].Paths) {
+			if _, err := fmt.Sscanf(c05RouteOf(tw), "r%dp%d", &st.ri, &st.pj); err != nil || st.ri < 0 || st.ri >= len(gv.Rules) || st.pj < 0 || st.pj >= len(gv.Rules[st.ri].Paths) {
 				st.bad = fmt.Sprintf("twin reached unknown backend %q", tw.backend)
 				return
 			}
@@ -1392,7 +1624,7 @@ func c05Exec(r *sim.Run, sci interface{}) {
 			if st.routed && k >= st.ri {
 				break
 			}
-			if !c05HostMatches(ru.Host, op.Host) {
+			if !c05HostMatches(ru, op.Host) {
 				continue
 			}
 			if d, _, _ := c05Denied(ru.Filter, ip); d {
@@ -1483,7 +1715,7 @@ func c05Exec(r *sim.Run, sci interface{}) {
 		switch {
 		case level != "":
 			if len(got.calls) > 0 {
-				if routed && got.backend != tw.backend {
+				if routed && got.backend != c05RouteOf(tw) {
 					return "C05.denied-reaches-sibling-path", fmt.Sprintf("client denied by the %s-level filter of its route was served by backend %s (another path than the router selects)\n%s", level, got.backend, ctxmsg())
 				}
 				return "C05." + level + "-filter-bypassed", fmt.Sprintf("client denied by the %s-level filter reached backend %s\n%s", level, got.backend, ctxmsg())
@@ -1670,6 +1902,14 @@ func c05Exec(r *sim.Run, sci interface{}) {
 		}
 		hcopy := append([]int(nil), hist...)
 		tw, _ := twinU.serve(op, id, nil)
+		if op.Body > 0 && len(tw.calls) == 0 {
+			o2 := op
+			o2.Body = 0
+			t2, _ := twinU.serve(o2, id, nil)
+			if tw.route = "-"; len(t2.calls) > 0 {
+				tw.route = t2.backend
+			}
+		}
 		// generations that may judge the request
 		var acc []*c05GenSUT
 		for k := lo; k <= hi && k < len(hcopy); k++ {
@@ -1690,6 +1930,79 @@ func c05Exec(r *sim.Run, sci interface{}) {
 		}
 		r.Eventf("%s %s %s%s tag=%s ip=%s via=%s cached=%v gens=%v..%v -> %v | twin %v | nocache(gen %d) %v", tag, op.Method, op.Host, op.Path, op.Tag, op.IP, op.Via, cached, hcopy[lo], hcopy[hi], got, tw, acc[len(acc)-1].g, f0s[len(acc)-1])
 		fmt.Fprintf(&sig, "%s%s%s%s%s>%d%s;", op.Method, op.Host, op.Path, op.Tag, op.IP, got.status, got.backend)
+
+		// reach probes for the ordinary-but-unexplored shapes
+		switch op.Via {
+		case "xffjunk":
+			r.Probe("c05.xff_hop_that_is_not_an_address_skipped")
+		case "xffsp":
+			r.Probe("c05.xff_members_padded_with_blanks")
+		case "xff2ok":
+			r.Probe("c05.xff_in_two_header_lines_client_first")
+		case "xff2priv":
+			r.Probe("c05.xff_in_two_header_lines_private_first")
+		}
+		if op.Body > 0 {
+			r.Probe("c05.request_with_body")
+			if got.status == http.StatusRequestEntityTooLarge {
+				r.Probe("c05.body_over_clientMaxBodySize_413")
+			}
+		}
+		if op.Method != "GET" && op.Method != "POST" && op.Method == strings.ToUpper(op.Method) {
+			r.Probe("c05.method_other_than_get_post")
+		}
+		if strings.HasPrefix(op.Path, "/.well-known/acme-challenge/") {
+			r.Probe("c05.acme_challenge_path")
+		}
+		if c05RouteOf(tw) != "" {
+			var ri, pj int
+			if _, err := fmt.Sscanf(c05RouteOf(tw), "r%dp%d", &ri, &pj); err == nil && ri >= 0 && ri < len(sc.Rules) && pj >= 0 && pj < len(sc.Rules[ri].Paths) {
+				if sc.Rules[ri].HostRegexp != "" {
+					r.Probe("c05.routed_by_rule_with_hostRegexp")
+				}
+				if pp := sc.Rules[ri].Paths[pj]; pp.Kind == "regexp" {
+					r.Probe("c05.routed_by_pathRegexp")
+					if pp.Rewrite != "" {
+						r.Probe("c05.routed_by_pathRegexp_with_rewrite")
+					}
+					if cached {
+						r.Probe("c05.routed_by_pathRegexp_on_cached_key")
+					}
+				}
+				if sc.XFwd {
+					r.Probe("c05.routed_with_xForwardedFor_option")
+				}
+			}
+		}
+
+		if op.Via == "xrijunk" {
+			// The client is named by something that is not an address. The
+			// statement's table is about addresses; both "falls under the
+			// default of every applying list" and "refused" are defensible, so
+			// 403 without handler and the unfiltered answer are both accepted.
+			// What the statement does fix: the answer must not depend on the
+			// cache or on earlier requests, i.e. it equals the cache-less one.
+			r.Probe("c05.client_named_by_a_non_address")
+			routed := c05RouteOf(tw) != ""
+			if hasTags && len(got.calls) > 0 && routed && !got.same(tw) {
+				r.Probe("c05.header_shadow_unjudged")
+				return
+			}
+			for i := range acc {
+				refused := len(got.calls) == 0 && got.status == http.StatusForbidden
+				if (refused || got.same(tw)) && got.same(f0s[i]) {
+					if refused {
+						r.Probe("c05.client_named_by_a_non_address_refused")
+					} else {
+						r.Probe("c05.client_named_by_a_non_address_answered_as_unfiltered")
+					}
+					return
+				}
+			}
+			violate("C05.non-address-client-answer-depends-on-history", "%s %s %s%s: the only client information is X-Real-IP %q (not an address); the answer %v is neither a 403 nor the unfiltered answer %v consistently with the cache-less mux of the same configuration (%v) [cacheSize %d, key cached before: %v; %s]\n  config (generation %d):\n%s",
+				tag, op.Method, op.Host, op.Path, op.Raw, got, tw, f0s[len(acc)-1], sc.CacheSize, cached, histStr(), acc[len(acc)-1].g, acc[len(acc)-1].yaml)
+			return
+		}
 
 		okBy := 0
 		var firstClass, firstMsg string
@@ -1747,6 +2060,10 @@ func c05Exec(r *sim.Run, sci interface{}) {
 				}
 			}
 		}
+		if okBy == 0 && op.Via == "xff2priv" {
+			violate("C05.client-in-later-x-forwarded-for-line-ignored", "X-Forwarded-For arrives as two header lines (%q / %q); as one list its first public hop %s is the client, the server judged another address (ordinary class %s)\n%s", op.Chain, op.IP, op.IP, firstClass, firstMsg)
+			return
+		}
 		if okBy == 0 {
 			// accepted by no generation that may judge it. Would lists that a
 			// reload had already replaced when the request started explain it?
@@ -1778,6 +2095,9 @@ func c05Exec(r *sim.Run, sci interface{}) {
 		// the cache-less mux of every generation involved, as a pure function
 		for i, gs := range acc {
 			if cl, msg := verdict("nocache", tag, gs, op, f0s[i], tw, f0s[i], false); cl != "" {
+				if op.Via == "xff2priv" {
+					cl, msg = "C05.client-in-later-x-forwarded-for-line-ignored", "X-Forwarded-For arrives as two header lines ("+op.Chain+" / "+op.IP+"); as one list its first public hop "+op.IP+" is the client, the server judged another address (ordinary class "+cl+")\n"+msg
+				}
 				violate(cl, "%s", msg)
 				return
 			}
@@ -1878,7 +2198,7 @@ func TestVerifC05(t *testing.T) {
 		New:      func() interface{} { return &c05Scenario{} },
 		Exec:     c05Exec,
 		MaxSteps: 20000,
-		Rule: "scenario = ipfilter specs at server/rule/path level drawn from an 18-address IPv4+IPv6 universe (single addresses, CIDRs at boundary prefix lengths incl. /0 and host bits, overlapping allow/block, blockByDefault) over 1-3 rules x 0-3 paths, cacheSize in {0,1,2,8}, 1-4 client tasks sending 6-40 requests (client address via RemoteAddr / X-Real-IP / X-Forwarded-For incl. private-only proxy chains shared by different clients, clients one bit off a list entry's prefix edge, any prefix length); a third of the scenarios hot-reload the server 1-5 times with 1-3 further spec generations whose ipFilter blocks differ at the server, rule and/or path level (same rules, same cacheSize), at quiescent points and under traffic; " +
+		Rule: "scenario = ipfilter specs at server/rule/path level drawn from an 18-address IPv4+IPv6 universe (single addresses, CIDRs at boundary prefix lengths incl. /0 and host bits, overlapping allow/block, blockByDefault) over 1-3 rules x 0-3 paths, cacheSize in {0,1,2,8}, 1-4 client tasks sending 6-40 requests (client address via RemoteAddr / X-Real-IP / X-Forwarded-For incl. private-only proxy chains shared by different clients, clients one bit off a list entry's prefix edge, any prefix length; in two thirds of the runs also hostRegexp rules, pathRegexp paths, HEAD/PUT/DELETE/OPTIONS, xForwardedFor, clientMaxBodySize + request bodies, respelled keys, padded / two-line / partly non-address X-Forwarded-For); a third of the scenarios hot-reload the server 1-5 times with 1-3 further spec generations whose ipFilter blocks differ at the server, rule and/or path level (same rules, same cacheSize), at quiescent points and under traffic; " +
 			"non-trivial = at least one request denied by an applying filter and one allowed request routed, and (if the cache is on) at least one request whose key was already cached; distinct = distinct (configurations of all generations, linearised request/answer/reload sequence)",
 		Real: []string{"pkg/object/httpserver mux (reload, ServeHTTP, serveHTTP, search, route cache)", "pkg/util/ipfilter (New, Allow, IPFilters)", "pkg/protocols/httpprot.NewRequest (realip extraction)", "supervisor.NewSpec (YAML + schema validation of the ipFilter entries)", "hashicorp ARC cache, cidranger"},
 		Stub: []string{"pipelines: recording MuxMapper/Handler (harness)", "HTTP transport: httptest.ResponseRecorder, requests built in memory", "sync/atomic -> simsync/simatomic (same semantics + gates)"},
@@ -1890,6 +2210,8 @@ func TestVerifC05(t *testing.T) {
 			"gates inside a request: the mux's atomic instance load, every statement of ipfilter.go (stmt_gates), the handler (optional yield); the ARC cache has its own real lock. A reload passes gates at the instance load/store and inside every ipfilter.New",
 			"hot reload: a request may be judged by any spec generation installed by a reload that had not returned when the request was handed to ServeHTTP ... had started when ServeHTTP returned; with no overlapping reload that is exactly the newest generation. Reloads of one server are serialised (as the supervisor does). Reloads keep rules/paths/cacheSize and change only ipFilter blocks",
 			"an answer explained only by lists that a returned reload had already replaced is classed C05.reload.*",
+			"route existence is taken from the twin's answer to the same request without body; X-Forwarded-For header lines are read as one list (RFC 7230 3.2.2), members that are not addresses are skipped; a client named only by a non-address may be refused or answered as unfiltered, consistently with the cache-less mux",
+			"a rule whose host equals the request's up to letter case, or whose hostRegexp finds it, counts as maybe applying (lenient)",
 		},
 	})
 }
